@@ -186,7 +186,8 @@ def _one(args):
     strategies = []
     skw = dict(max_order_exposure=None, max_selection_exposure=None, max_live_trade_count=5)
     own_mw = two == "own-mw"
-    if own_mw:
+    again = two == "again"
+    if own_mw or again:
         two = None
     if two:
         # the same market shape again under another id (same selection ids, same removal): sequentially
@@ -205,6 +206,10 @@ def _one(args):
         strategies.append(dict(script=scripts[k], kw=dict(skw), name="S%d" % k))
     h = Hooks([1])
     L._install_created_tracking()
+    if again:
+        # the same market (same id, same withdrawal) was already simulated by ANOTHER framework instance earlier in
+        # this process (a parameter sweep): nothing of that run may leak into this one
+        simx.SimWorld(markets, [dict(script=dict(sc), kw=dict(skw), name="S%d" % k) for k, sc in enumerate(scripts)], event_processing=False).run()
     w = simx.SimWorld(markets, strategies, hooks=h, event_processing=bool(two and two.startswith("event")))
     w.own_sim_middleware = own_mw
     w.run()
@@ -340,7 +345,7 @@ def run(tier):
                 for mt in ("WIN", "PLACE"):
                     jobs.append((a, b, f, "plain", mt, 10.0, None))
                     jobs.append((a, b, f, "plain", mt, f, None))
-                    for two in ("seq", "event", "event-long", "own-mw"):
+                    for two in ("seq", "event", "event-long", "own-mw", "again"):
                         jobs.append((a, b, f, "plain", mt, None, two))
     for b in ("matched-lay", "matched-back", "moc-lay", "low-price", "moc-lay+matched"):
         for f in (2.5, 20.0, None):
